@@ -3,6 +3,7 @@ import AfkakProofs.BrokerClient.SimC10
 import AfkakProofs.BrokerClient.MonC10
 import AfkakProofs.BrokerClient.SimC06
 import AfkakProofs.BrokerClient.MonC06
+import AfkakProps.Open.C10
 /-!
 # C10 — after a connection drop, unanswered requests are re-sent once, in order; reconnect, back-off, close
 Property theorems only; helper lemmas live in `AfkakProofs/BrokerClient/`.
@@ -404,6 +405,18 @@ example : (trace ⟨fun n => n⟩ (St.init 1 9092) demo).map (·.2) =
 example : (run ⟨fun n => n⟩ (St.init 1 9092) (demo.take 14)).connector = .attempt := by decide +kernel
 example : (run ⟨fun n => n⟩ (St.init 1 9092) (demo.take 15)).closed = false := by decide +kernel
 
+/-! Re-entrant callbacks (open statement `C10_reentrant` in `Open/C10.lean`): a run of the re-entrant model
+in which the callback of a fire-and-forget request cancels a queued request while the queue is written —
+the cancelled request is not written (the behaviour after commit e52a354) — accepted by `r10`. -/
+example : ((Afkak.BrokerClientR.traceR ⟨fun _ => 1⟩ (Afkak.BrokerClientR.StR.init 1 9092)
+      [.make 1 false (some (.cancel 2)), .make 2 false none, .make 3 true none, .flat .connOk]).map (·.2)) =
+    [[.ob (.connect 1 9092), .made 0 1], [.made 1 2], [.made 2 3],
+     [.ob (.write 0 0 1), .ob (.fire 0 1 .none), .hookBegin 0, .ob (.fire 1 2 (.err .cancelled)), .hookEnd,
+      .ob (.write 0 2 3)]] := by decide +kernel
+example : r10 (Afkak.BrokerClientR.traceR ⟨fun _ => 1⟩ (Afkak.BrokerClientR.StR.init 1 9092)
+      [.make 1 false (some (.cancel 2)), .make 2 false none, .make 3 true none, .flat .connOk]) = true := by
+  decide +kernel
+
 end Afkak.Props.C10
 
 /- OBLIGATIONS
@@ -418,4 +431,5 @@ C10_closed_quiet
 C10_close
 -/
 /- OPEN_STATEMENTS
+C10_reentrant
 -/
